@@ -13,7 +13,7 @@ from .. import common, tlc
 from ..dilmid import DilMidWorld, reactor, Ping, Pong
 from ..mbworld import machine_state
 
-OBS_NAMES = ["ResponsiveNeverDropped", "SilentDropped", "DroppedWithinThree", "NoTimerWithoutConn", "OneTimer", "NoInternal"]
+OBS_NAMES = ["ResponsiveNeverDropped", "SilentDropped", "DroppedWithinThree", "NoTimerWithoutConn", "OneTimer", "NoInternal", "Monitored"]
 
 
 class TimerRun:
@@ -136,7 +136,7 @@ def replay_behaviour(tid, states, interval):
     rec = {"tid": tid, "I": interval, "now": now, "conn": run.conn_no if run.live else 0, "stopped": bool(states[-1]["stopped"]),
            "pings": [{"conn": p["conn"], "sent": p["sent"], "answered": p["answered"], "lost": p["lost"]} for p in run.pings],
            "dropped": run.dropped, "timer": run.projection()["timer"], "maxTimers": timers_max, "snaps": snaps,
-           "internal": run.errors + [repr(e)[:100] for e in run.w.logged]}
+           "internal": run.errors + [repr(e)[:100] for e in run.w.logged] + [repr(e)[:100] for s_ in run.w.sides.values() for e in s_.errors]}
     run.w.close()
     return run, rec, drift
 
@@ -146,7 +146,7 @@ def run(prop, tier):
     seed = common.seed()
     v = common.Verdict(prop, tier)
     cov = {"tlc_configs": {}, "samples": [], "drift": []}
-    INV = ["ResponsiveNeverDropped", "SilentDropped", "DroppedWithinThree", "NoTimerWithoutConn", "MonitoredWhenConnected"]
+    INV = ["ResponsiveNeverDropped", "SilentDropped", "DroppedWithinThree", "NoTimerWithoutConn", "MonitoredWhenConnected", "NoInternal"]
     records, meta = [], {}
     states = transitions = 0
     ndrift = 0
@@ -195,6 +195,9 @@ def run(prop, tier):
             "second_conn_three_answers": "conn = 2 /\\ Cardinality(Answered(2)) >= 3",
             "stop_on_second_conn_armed": "stopped /\\ conn = 2 /\\ Len(pings) >= 3",
             "lost_second_then_third_monitored": "conn = 3 /\\ timer > 0 /\\ Cardinality(Answered(3)) >= 1",
+            # a loss in every TrafficTimer state, followed by the next connection
+            "lost_while_ping_unanswered_then_reconnected": 'conn = 2 /\\ \\E k \\in Sent(1) : pings[k].answered = 0 /\\ Len(dropped) = 0',
+            "lost_right_after_pong_then_reconnected": 'conn = 2 /\\ Answered(1) # {} /\\ Len(dropped) = 0 /\\ timer > 0',
         }
         for name, consts in (("I2", dict(I=2, Horizon=16, MaxConns=3)), ("I3", dict(I=3, Horizon=20, MaxConns=3))):
             wit, unreached = common.witnesses(wd, "DilationTimer", consts, goals, "MC_C16_goal_" + name)
